@@ -625,6 +625,17 @@ def install(I):
         return base_truthy(v)
     I.truthy = truthy
 
+    def truthy_in(c, st):
+        # `G.nodes` / `G.edges` in a boolean context: non-empty
+        if isinstance(c, NodeView):
+            arr = fld(st, c.g, "nodes").tree
+            return arr != z3.K(arr.sort().domain(), FALSE)
+        if isinstance(c, EdgeView):
+            arr = fld(st, c.g, "adj").tree
+            return arr != z3.K(arr.sort().domain(), FALSE)
+        return I.truthy(c)
+    I.truthy_in = truthy_in
+
     # len() of views
     base_len = I.lib["len"].fn
 
